@@ -353,13 +353,35 @@ pub fn run_timeouts(seed: u64, tier: &str, out: &mut dyn FnMut(String)) {
     let ncase = if tier == "thorough" { 60 } else { 12 };
     let mut iset = make_iset(false);
     let mut iset2 = make_iset(false);
+    // a slow instruction (public InstructionSet::add): it changes nothing, records when it was started and sleeps
+    // 4 ms. The run loop reads the clock before every step, so no step may START once the limit has passed.
+    let starts: std::sync::Arc<std::sync::Mutex<Vec<std::time::Instant>>> = Default::default();
+    {
+        let log = starts.clone();
+        iset.add(
+            "TEST.SLEEP".to_string(),
+            pushr::push::instructions::Instruction::new(move |_s: &mut PushState, _c: &pushr::push::instructions::InstructionCache| {
+                log.lock().unwrap().push(std::time::Instant::now());
+                std::thread::sleep(std::time::Duration::from_millis(4));
+            }),
+        );
+    }
     for case in 0..ncase {
         let mut r = Rng::for_case(seed, "runt", case);
         let mut st = fresh_state(&mut r, &names);
         st.graph_stack.flush();
         st.exec_stack.flush();
-        let limit_ms: u64 = if case % 2 == 0 { 0 } else { *r.pick(&[1u64, 2, 3, 5]) };
-        if case % 2 == 0 && case % 4 == 0 {
+        let slow = case % 4 == 3;
+        let limit_ms: u64 = if slow { *r.pick(&[10u64, 15, 22]) } else if case % 2 == 0 { 0 } else { *r.pick(&[1u64, 2, 3, 5]) };
+        if slow {
+            // ( 0 TEST.SLEEP 1 TEST.SLEEP ... ): 100 slow steps, 400 ms of work under a limit of 10-22 ms
+            let mut v = vec![];
+            for i in 0..100 {
+                v.push(Item::int(i));
+                v.push(Item::instruction("TEST.SLEEP".to_string()));
+            }
+            st.exec_stack.push(Item::list(v));
+        } else if case % 2 == 0 && case % 4 == 0 {
             let o = ProgOpts { names: &names, clean: true, focus: &[], no_alloc: true };
             for it in gen_program(&mut r, &o, &st) {
                 st.exec_stack.push(it);
@@ -380,6 +402,7 @@ pub fn run_timeouts(seed: u64, tier: &str, out: &mut dyn FnMut(String)) {
         };
         let nid = next_node_id();
         out(format!("#c runt {}", case));
+        starts.lock().unwrap().clear();
         let t0 = std::time::Instant::now();
         let r1 = catch_unwind(AssertUnwindSafe(|| {
             let o = PushInterpreter::run(&mut st, &mut iset);
@@ -389,7 +412,7 @@ pub fn run_timeouts(seed: u64, tier: &str, out: &mut dyn FnMut(String)) {
         let (o, s1) = match r1 {
             Ok(x) => x,
             Err(_) => {
-                out(format!("( runt {} PANIC - 0 0 0 {} )", pre, nid));
+                out(format!("( runt {} PANIC - 0 0 0 {} 0 )", pre, nid));
                 continue;
             }
         };
@@ -411,7 +434,9 @@ pub fn run_timeouts(seed: u64, tier: &str, out: &mut dyn FnMut(String)) {
             }
             k += 1;
         }
-        out(format!("( runt {} {} {} {} {} {} {} )", pre, outcome_str(&o), post, k2, elapsed_us, limit_ms, nid));
+        // the latest start of a slow step, relative to the moment run() was called
+        let late_us = starts.lock().unwrap().iter().map(|t| t.duration_since(t0).as_micros()).max().unwrap_or(0);
+        out(format!("( runt {} {} {} {} {} {} {} {} )", pre, outcome_str(&o), post, k2, elapsed_us, limit_ms, nid, late_us));
     }
 }
 
@@ -445,5 +470,29 @@ pub fn run_growth(_seed: u64, tier: &str, out: &mut dyn FnMut(String)) {
                 Err(_) => out(format!("( growth {} {} PANIC {} )", pre, n, nid)),
             }
         }
+    }
+    // small but DEEP items (a chain of 40 nested lists, 80-odd points): every CODE.* and EXEC.* instruction must still
+    // return promptly - work that doubles with the nesting depth is a hang inside one step (stall watchdog)
+    let deep = |seedv: i32| -> Item {
+        let mut t = Item::list(vec![Item::int(seedv)]);
+        for k in 0..40 {
+            t = Item::list(vec![Item::int(k), t]);
+        }
+        t
+    };
+    let names: Vec<String> = instruction_names().into_iter().filter(|n| (n.starts_with("CODE.") || n.starts_with("EXEC.")) && !is_rand(n) && n != "EXEC.CMD").collect();
+    for name in names.iter() {
+        let mut st = PushState::new();
+        for k in 0..3 {
+            st.code_stack.push(deep(k));
+            st.exec_stack.push(deep(if k == 0 { 0 } else { 7 }));
+        }
+        st.int_stack.push(3);
+        st.int_stack.push(41);
+        st.bool_stack.push(true);
+        st.name_stack.push("a".to_string());
+        st.index_stack.push(pushr::push::index::Index::new(2));
+        out(format!("#c exec {} (deep items)", name));
+        out(crate::scen_exec::observe_exec(&mut iset, name, st));
     }
 }
